@@ -132,6 +132,8 @@ class DriveRig:
 
     # SDO side of the drive
     def _read(self, mux):
+        if getattr(self, "kill", False):
+            raise SystemError("harness: the assignment is being abandoned")
         if mux == (0x6041, 0):
             if self.pending_cw and time.time() >= self.pending_cw[0][0]:
                 for _, cw in self.pending_cw:
@@ -219,7 +221,11 @@ def run_transitions(ctx, desc):
                 ctx.count("transition_cases")
                 exc = None
                 try:
-                    rig.node.state = target
+                    assign_state(rig, target)
+                except TimeoutError as e:
+                    ctx.inconc(str(e), case)
+                    rig.close()
+                    continue
                 except Exception as e:  # noqa: BLE001
                     exc = e
                 if ticked:
@@ -254,6 +260,44 @@ def run_transitions(ctx, desc):
                 rig.close()
 
 
+class Spins(Exception):
+    pass
+
+
+def assign_state(rig, target, guard_s=30.0):
+    """``node.state = target`` with a non-termination guard (SDO transports, where every look at the drive is a countable
+    status read): after ``guard_s`` seconds - sixty times the configured overall time-out - the call is judged to spin only
+    on *logical* evidence gathered meanwhile: more than 2000 status reads (it was running, not starved), not a single
+    controlword and no change of the drive's state.  Anything else at that point is inconclusive."""
+    if not rig.transport.startswith("sdo"):
+        rig.node.state = target
+        return
+    import threading
+    box = {}
+
+    def call():
+        try:
+            rig.node.state = target
+        except BaseException as exc:  # noqa: BLE001
+            box["exc"] = exc
+    d = rig.drive
+    n_reads, n_cw, n_tr = d.status_reads, len(d.controlwords), len(d.transitions)
+    th = threading.Thread(target=call, daemon=True)
+    th.start()
+    th.join(guard_s)
+    if th.is_alive():
+        evidence = (d.status_reads - n_reads, len(d.controlwords) - n_cw, len(d.transitions) - n_tr)
+        rig.kill = True
+        th.join(5)
+        rig.kill = False
+        if evidence[0] > 2000 and evidence[1] == 0 and evidence[2] == 0:
+            raise Spins(f"state = {target!r} had not returned after {guard_s:.0f} s: {evidence[0]} status reads, no controlword written, "
+                        "drive state unchanged")
+        raise TimeoutError(f"assignment still running after {guard_s:.0f} s (reads, controlwords, transitions) = {evidence}")
+    if "exc" in box:
+        raise box["exc"]
+
+
 def run_histories(ctx, desc):
     """One node object and one drive over many assignments: what an earlier assignment left behind (last controlword,
     RPDO buffer, cached statusword) must not keep a later one from working.  Between assignments the drive may fault on
@@ -277,6 +321,22 @@ def run_histories(ctx, desc):
                 if transport.startswith("pdo"):
                     rig.send_tpdo()
                 continue
+            if r < 0.29 and drive.state != D.NRTSO:
+                # a fault whose cause persists for a while: resets are not accepted until it is gone; what the application
+                # tries meanwhile is not judged, afterwards every assignment has to work again
+                ops.append("fault-with-persisting-cause")
+                drive.fault()
+                for _ in range(4):
+                    drive.tick()
+                drive.fault_cause_present = True
+                if transport.startswith("pdo"):
+                    rig.send_tpdo()
+                try:
+                    assign_state(rig, rng.choice(COMMANDABLE))
+                except Exception:  # noqa: BLE001 - expected: the drive cannot leave FAULT yet
+                    pass
+                drive.fault_cause_present = False
+                continue
             if r < 0.32:
                 ops.append("power-cycle")
                 drive.power_cycle()
@@ -294,7 +354,10 @@ def run_histories(ctx, desc):
             ctx.count("transition_cases")
             exc = None
             try:
-                rig.node.state = target
+                assign_state(rig, target)
+            except TimeoutError as e:
+                ctx.inconc(str(e), case)
+                break
             except Exception as e:  # noqa: BLE001
                 exc = e
             cws = drive.controlwords[n_cw:]
